@@ -233,6 +233,12 @@ RULE = (
     "the direct call and with a segment-wise reference (event-free coasts, delta-v added by hand, thrust arcs integrated here), and the "
     "EventStack records of every single call are counted against the events due in that call; non-trivial when the events move the "
     "state by > 1000 tolerances and (full schedules) at least one leg holds both an event from before its start and an event inside it. "
+    "Force-batch family (the per-member loop of _differentialEquation, TwoBody and SP): for every (dynamics: two-body, sp_g4, J2 + general "
+    "relativity, J2 + Moon + SRP, 3x3 + Sun/Moon/Jupiter + SRP + general relativity; finite-thrust callback none / ntwBurn / spiralThrust / "
+    "planeChangeThrust installed on the object; elapsed time 0 / 5400 s; batch size K = 2 / 3 / 5 / 13; every cyclic window of 13 orbits with "
+    "different radii, eccentricities and inclinations) the derivative of the stacked (6K,) vector is compared, column by column, with the "
+    "derivative of the member alone (acceleration within 1e-13 mu/r^2, velocity part bit-identical); non-trivial by construction (K >= 2, members "
+    "are different orbits, so a term formed from another member's position or velocity differs by >= 1000 tolerances). "
     "Distinct by construction (lattice points); VERIF_SEED rotates RAAN/argument of perigee/third anomaly, the SP "
     "start day, the batch column assignment and the orbit assignment of the epoch-split / twin / stale-schedule items."
 )
@@ -293,7 +299,17 @@ SP_CFG = {
     "sp_g8": (8, 8, [], False, False),
     # solar radiation pressure WITHOUT the Sun among the third bodies (the force model then fetches the Sun itself)
     "sp_srp": (2, 0, ["moon"], True, False),
+    # general relativity alone on top of J2 (force_batch family: a term that needs the member's own velocity)
+    "sp_gr": (2, 0, [], False, True),
 }
+# force_batch family: _differentialEquation on the stacked (6K,) vector of a (6,K) batch against the same function on each member
+FB_CFGS = ["twobody", "sp_g4", "sp_gr", "sp_srp", "sp_g3all"]  # sp_g3all: third bodies + SRP + general relativity together
+FB_THRUST = {  # finite_thrust callback installed on the object (the library's own thrust functions), km/s^2
+    "none": None, "ntw": ("ntwBurn", [1e-7, 2e-7, -1.5e-7]), "spiral": ("spiralThrust", 1e-7), "plane_change": ("planeChangeThrust", 1e-7),
+}
+FB_K = [2, 3, 5, 13]  # batch sizes; every cyclic window of the 13 orbits for K < 13, every rotation's first column for K = 13
+FB_TIMES = [0.0, 5400.0]  # elapsed seconds at which the derivative is evaluated
+FB_REL_TOL = 1e-13  # of mu / r^2, see _run_force_batch
 SAT_RATIO = 0.0605  # (1 + 0.21) * 25 m^2 / 500 kg
 A_SRP = 4.56e-6 * SAT_RATIO / 1000.0  # km/s^2 at 1 au: solar pressure 4.56e-6 N/m^2 times (1 + reflectivity) A / m
 EPOCH_SHIFTS = [1.0, 1000.0, 86400.0, -300.0]
@@ -523,6 +539,10 @@ def items(tier, seed):
     out.extend(_sk_items(thorough, seed, jd0))
     # ---- stale schedules: propagation WITH scheduled events, every leg of a split handed the full, un-pruned schedule
     out.extend(_st_items(thorough, seed, jd0))
+    # ---- force_batch: the derivative of a stacked batch, member by member (both tiers: it costs ~1 CPU s per item)
+    for cfg in FB_CFGS:
+        for thrust in FB_THRUST:
+            out.append(["force_batch", cfg, thrust, jd0, seed, [_orbit(i, seed) for i in _sp_orbits(seed, 13)]])
     # ---- closed-form solver and helpers
     for ch in fw.chunked(all_idx, 15):
         out.append(["universal", [_orbit(i, seed) for i in ch]])
@@ -685,6 +705,9 @@ def bounds(tier, seed):
         },
         "station_keeping": _sk_bounds(tier, seed, its),
         "stale_schedule": _st_bounds(its),
+        "force_batch": {"configs": {k: (SP_CFG[k] if k != "twobody" else "TwoBody") for k in FB_CFGS}, "finite_thrust": FB_THRUST, "batch_sizes": FB_K,
+                        "elapsed_s": FB_TIMES, "orbits": 13, "windows": "every cyclic window of the 13 orbits (K < 13), all 13 rotations (K = 13)",
+                        "tolerance": f"{FB_REL_TOL:g} mu/r^2, velocity part bit-identical", "items": sum(1 for it in its if it[0] == "force_batch")},
         "propagation_items": len(props),
         "orbits_per_dynamics_integrator_span": _orbit_counts(props),
         "orbit_span_combinations": sum(len(it[7]) for it in props),
@@ -2376,6 +2399,61 @@ def _run_stumpff(res, item):
 
 
 # ------------------------------------------------------------------------------------------------ driver
+def _run_force_batch(res, item):
+    """The function solve_ivp integrates, on the stacked vector of a (6,K) batch (``X.ravel()``, the layout ``propagate`` hands
+    over) against the same function on every member alone. Every term of the per-member loop (gravity field, third bodies, SRP,
+    general relativity, finite thrust) must be formed from the member's OWN position and velocity.
+
+    Tolerance: both evaluations perform the same operations on the same numbers; only the memory stride of the operands differs
+    (BLAS may sum a strided 3-vector in another order): a few ulp (2.2e-16) of the largest term mu/r^2, times <= ~10 through
+    the rotation ECI -> ECEF -> gradient -> ECI, i.e. <= ~2e-15 mu/r^2 (measured on this tree: bit-identical, error 0). 1e-13 mu/r^2
+    is 2 orders above that. The smallest per-member term is general relativity, (v/c)^2 ~ 1e-10 (GEO) .. 6e-10 (LEO) of mu/r^2
+    and of the order of itself wrong when taken with another orbit's velocity: >= 3 orders above the tolerance (SRP: 3e-8 .. 1e-6,
+    thrust 1e-7 km/s^2: >= 1e-5 of mu/r^2)."""
+    from functools import partial  # noqa: PLC0415
+
+    from resonaate.dynamics.integration_events import finite_thrust as ft  # noqa: PLC0415
+
+    _, kind, thrust, jd, seed, orbs = item
+    ctx = _Ctx(res, item, kind, "derivative", 0.0, 0.0)
+    dyn = _dynamics(kind, "RK45", float(jd))
+    spec = FB_THRUST[thrust]
+    callback = None
+    if spec is not None:
+        fn = getattr(ft, spec[0])
+        callback = partial(fn, acc_vector=np.array(spec[1])) if spec[0] == "ntwBurn" else partial(fn, magnitude=spec[1])
+    x0s = [_state(o) for o in orbs]
+    n = len(orbs)
+    for t_el in FB_TIMES:
+        dyn.finite_thrust = callback
+        alone = [_derivative(dyn, t_el, x) for x in x0s]
+        for K in FB_K:
+            for rot in range(n):
+                members = [(rot + c) % n for c in range(K)]
+                X = np.stack([x0s[m] for m in members], axis=1)  # (6, K)
+                got = _call(dyn._differentialEquation, float(t_el), X.ravel().copy())  # noqa: SLF001
+                sig = f"C03/force_batch/{kind}/thrust_{thrust}"
+                base = {"t_elapsed": t_el, "K": K, "window_start": rot, "thrust": thrust}
+                if _bad(got) or np.asarray(got).shape != (6 * K,) or not np.all(np.isfinite(got)) or any(_bad(alone[m]) for m in members):
+                    res.case("force_batch", ctx.base(orbs[rot], **base), False, nontrivial=True, signature=f"{sig}/exception_or_shape",
+                             observed=repr(got)[:200], expected=f"a ({6 * K},) derivative", item=item)
+                    continue
+                res.observe(got)
+                G = np.asarray(got, dtype=float).reshape(6, K)
+                for c, m in enumerate(members):
+                    r = float(np.linalg.norm(x0s[m][:3]))
+                    tol = FB_REL_TOL * MU / (r * r)
+                    err = fw.maxabs(G[3:, c], alone[m][3:])
+                    vel_ok = bool(np.array_equal(G[:3, c], x0s[m][3:]))
+                    ctx.ratio("force_batch", err / tol)
+                    detail = "column" if vel_ok else "velocity_part"
+                    res.case("force_batch", ctx.base(orbs[m], col=c, **base), err <= tol and vel_ok, nontrivial=True,
+                             signature=f"{sig}/{detail}", observed={"acc_err_kms2": err, "acc_err_over_mu_r2": err * r * r / MU, "in_batch": G[:, c]},
+                             expected={"tol_kms2": tol, "alone": alone[m]}, outcome="within" if err <= tol and vel_ok else "outside", item=item)
+    dyn.finite_thrust = None
+    return ctx.ratios
+
+
 def run_item(item):
     res = fw.Result()
     cpu0 = time.process_time()
@@ -2393,6 +2471,8 @@ def run_item(item):
         ratios = _run_sk_scenario(res, item)
     elif kind == "stale_schedule":
         ratios = _run_stale_schedule(res, item)
+    elif kind == "force_batch":
+        ratios = _run_force_batch(res, item)
     elif kind == "universal":
         ratios = _run_universal(res, item)
     elif kind == "universal_branches":
@@ -2415,6 +2495,8 @@ def run_item(item):
         res.ratio_group = f"station_keeping_scenario/{item[1]}/{item[2]}"
     elif kind == "stale_schedule":
         res.ratio_group = f"stale_schedule/{item[1]}/{item[2]}/T={item[3]:g}"
+    elif kind == "force_batch":
+        res.ratio_group = f"force_batch/{item[1]}/thrust_{item[2]}"
     return res
 
 
